@@ -233,7 +233,9 @@ reg("C03",
          "(b) skeleton: the real mutation-syscall sequence of every op equals the model's call trace; (c) kill sweep: the "
          "real process is SIGKILLed on entry to its N-th mutating syscall for every N, a fresh process inspects the "
          "directory; (d) errno injection at every syscall class of sync / async writes (the error paths of publication): "
-         "no content path is ever created or filled in place, the content area stays valid; "
+         "no content path is ever created or filled in place, the content area stays valid; CRASH / FAULT CORRESPONDENCE: "
+         "the tree found after every real SIGKILL is one of the model's crash states (`crashset`: every call index x every "
+         "torn length) and every injected-errno outcome is one of the model's single-fault outcomes (`faultset`); "
          "distinct = distinct (op, result-class) sequences / syscall skeletons / post-kill trees / fault classes")
 
 reg("C04",
@@ -247,7 +249,8 @@ reg("C04",
          "multi-byte UTF-8), lookups in both flavours, a further append, lookups again; (b) kill sweep over keyed writes, "
          "overwrites, index inserts with non-ASCII metadata and removals: SIGKILL at every mutating syscall, then a fresh "
          "process checks old-or-new for the key, other keys intact, visible => readable, later write visible; (c) errno "
-         "injection at every syscall class of keyed writes (sync / async): a write that answers ok has its content stored "
+         "injection at every syscall class of keyed writes (sync / async), each real post-kill tree / fault outcome also "
+         "compared with the model's crash states / single-fault outcomes: a write that answers ok has its content stored "
          "(no entry made visible by swallowing a failed publication), a failed one leaves the old state, the retry works")
 
 reg("C13",
@@ -262,7 +265,10 @@ reg("C13",
          "(+EACCES, EMFILE thorough)}; judged: error or truthful success, no panic/hang, content area valid, other entry "
          "intact, retry without fault succeeds and reads back; distinct = (op, syscall, errno, result class); plus real "
          "SHORT WRITES: a file-size limit (RLIMIT_FSIZE, SIGXFSZ ignored) cuts the index append / temp-file write at several "
-         "byte offsets so that write(2) returns short and the retry fails with EFBIG")
+         "byte offsets so that write(2) returns short and the retry fails with EFBIG; FAULT CORRESPONDENCE: the outcome of every "
+         "real injection (result class + every file and link of the cache afterwards, bucket checksums/times masked) must be "
+         "one of the outcomes the model's runFault produces for a single failing call of that operation (driver op "
+         "`faultset`: every call index x error kind x partial-write length incl. 'all bytes written, error reported')")
 
 reg("C07",
     gen=lambda seed, tier: P.gen_history_programs(G.Rng(seed + 7), N(tier, 20, 100)),
